@@ -280,6 +280,7 @@ def main():
         evname = pid + ('.replay' if a.replay else '') + '.json'
         write_json(os.path.join(os.environ.get('VERIF_EVIDENCE_DIR', os.path.join(VERIF, 'evidence')), evname), ev)
         if violations:
+            violations.sort(key=lambda v: 0 if v[3] else 1)   # concrete failing inputs of this property first
             rdir = os.path.join(os.environ.get('VERIF_REPLAY_DIR', os.path.join(VERIF, 'replays')), pid)
             os.makedirs(rdir, exist_ok=True)
             for n, (kind, lines, detail, found) in enumerate(violations[:5]):
